@@ -199,6 +199,7 @@ class Device:
         self.store = dict(init)         # id -> bytes
         self.default = dict(default)
         self.enoent = set(enoent)
+        self.ext = {}                   # id -> extended type byte (MISC_GET_EXTENDED_TYPE)
         self.stored = {}                # insertion order irrelevant: compared sorted
         self.out = []                   # [(chan, bytes)]
 
@@ -215,7 +216,9 @@ class Device:
             cmd, idb = data[0], data[1:3]
             i = int.from_bytes(idb, 'little')
             en = i in self.enoent
-            if cmd == 6:
+            if cmd == 2:
+                self.out.append((3, bytes([2]) + idb + bytes([self.ext.get(i, 0)])))
+            elif cmd == 6:
                 self.out.append((3, bytes([6]) + idb + (bytes([ENOENT]) if en else self.default.get(i, b''))))
             elif cmd == 3:
                 if en:
@@ -342,7 +345,7 @@ class Harness:
         for (i, n, g, ty, ro, pers) in cfg['toc']:
             meta = ty | (0x40 if ro else 0) | (0x10 if pers else 0)
             e = ParamTocElement(i, bytes([meta]) + ('g%d' % g).encode() + b'\0' + ('n%d' % n).encode() + b'\0')
-            if pers:
+            if pers and 'ext' not in cfg:
                 e.mark_persistent()
             cf.param.toc.add_element(e)
             self.elems[n] = (i, n, g, ty, ro, pers)
@@ -412,6 +415,46 @@ class Harness:
                 r = [2] + self.canon(e[3], res)
             self.log.append(('misc', cb, n, r))
         return f
+
+    # ---- the extended-type phase, started the way Param.refresh_toc.refresh_done does
+    def start_ext(self):
+        P = self.P
+        toc = self.cf.param.toc
+        self.dev.ext = {int(k): v for k, v in self.cfg['ext'].items()}
+        elements = []
+        for group in toc.toc:
+            for element in toc.toc[group].values():
+                if element.is_extended():
+                    elements.append(element)
+        f = P._ExtendedTypeFetcher(self.cf, toc)
+        f.start()
+        f.set_callback(lambda: self.log.append(('done',)))
+        f.request_extended_types(elements)
+        self.fetcher = f
+        self.sched.resume(f)
+        self._expect(f, 'get')
+        return [e.ident for e in elements]
+
+    def ext_can_get(self):
+        w = self.sched.waiting(self.fetcher)
+        return bool(w and w[0] == 'get' and self.fetcher.request_queue.q)
+
+    def ext_can_send(self):
+        w = self.sched.waiting(self.fetcher)
+        return bool(w and w[0] == 'acquire' and not self.fetcher._lock.l)
+
+    def ext_snapshot(self):
+        f = self.fetcher
+        w = self.sched.waiting(f)
+        toc = self.cf.param.toc
+        return {
+            'queue': [int.from_bytes(bytes(pk.data[1:3]), 'little') for pk in f.request_queue.q],
+            'hand': 1 if (w and w[0] == 'acquire') else 0,
+            'lock': int(f._lock.l), 'req': f._req_param, 'count': f._count,
+            'pers': [int(bool(toc.get_element_by_id(e[0]).is_persistent())) for e in self.cfg['toc']],
+            'out': list(self.dev.out),
+            'dead': [inf['exc'] for inf in self.sched.info.values() if inf['done'] and inf['exc']],
+        }
 
     # ---- API operations, to be run inside an issuer thread (or directly: none of them blocks)
     def op(self, o):
